@@ -7,6 +7,7 @@ import RscelModel.Driver.SerdeWire
 import RscelModel.Driver.Spans
 import RscelModel.Model.Params
 import RscelModel.Driver.TimeWire
+import RscelModel.Driver.SqlCmd
 open Rscel
 
 def showNames (ns : List Str) : String :=
@@ -128,6 +129,8 @@ def handle (line : String) : String :=
       match Wire.parseVal args with
       | some (.code c, _) => wfDiag c
       | _ => "bad-request"
+    else if cmd == "sql" || cmd == "sqltext" then
+      (Wire.handleSql cmd args).getD "bad-request"
     else
     -- optional command groups, each `String → List String → Option String`
     match (SerdeWire.handle cmd args <|> Wire.handleTimeOp cmd args <|> Wire.handleValOp cmd args) with
